@@ -427,22 +427,21 @@ func randomHistory(r *rand.Rand, n int) []EngOp {
 			ns := pickNs()
 			p := &world.EnginePod{NS: ns, Name: podNames[r.Intn(len(podNames))], Owner: owner, OwnerKind: "ReplicaSet", Labels: labels()}
 			if owner != "" {
-				// pods sharing an owner share a pod template at all times (the tool's workload model)
+				// pods sharing an owner usually share a pod template, but need not (hand-written manifests, template updates)
 				key := ns + "/" + owner
-				if l, ok := ownerLabels[key]; ok {
+				if l, ok := ownerLabels[key]; ok && r.Intn(4) != 0 {
 					p.Labels = l
 				} else {
 					ownerLabels[key] = p.Labels
 				}
 				p.Name = owner + "-" + p.Name
 			}
-			if r.Intn(2) == 0 {
-				p.Ports = []world.CPort{{Name: "http", Proto: []string{"TCP", "UDP"}[r.Intn(2)], Port: 2}}
-			} else {
+			switch r.Intn(4) {
+			case 0:
 				p.Ports = []world.CPort{}
-			}
-			if owner != "" {
-				// named-port mapping is part of the template too
+			case 1:
+				p.Ports = []world.CPort{{Name: "http", Proto: "UDP", Port: 2}}
+			default:
 				p.Ports = []world.CPort{{Name: "http", Proto: "TCP", Port: 2}}
 			}
 			ops = append(ops, EngOp{Op: "InsPod", Pod: p})
